@@ -121,3 +121,121 @@ pub fn scratch_dir(tag: &str) -> String {
     let _ = std::fs::create_dir_all(&d);
     d
 }
+
+
+/// Run `exe` interactively on a pseudo-terminal (stdin, stdout and stderr are the terminal, so
+/// the CLI takes its interactive path), type `lines` one after the other, end the session with
+/// Ctrl-D and collect everything the terminal showed. Limits as in `run`.
+pub fn run_pty(exe: &str, lines: &[String], lim: &Limits) -> std::io::Result<ProcResult> {
+    use std::os::fd::FromRawFd;
+    let (mut master, mut slave): (libc::c_int, libc::c_int) = (0, 0);
+    let rc = unsafe { libc::openpty(&mut master, &mut slave, std::ptr::null_mut(), std::ptr::null(), std::ptr::null()) };
+    if rc != 0 {
+        return Err(std::io::Error::last_os_error());
+    }
+    let mut cmd = Command::new(exe);
+    cmd.env("TERM", "dumb").env("NO_COLOR", "1");
+    unsafe {
+        cmd.stdin(Stdio::from_raw_fd(libc::dup(slave)));
+        cmd.stdout(Stdio::from_raw_fd(libc::dup(slave)));
+        cmd.stderr(Stdio::from_raw_fd(libc::dup(slave)));
+    }
+    let (mem, stack) = (lim.mem_bytes, lim.stack_bytes);
+    unsafe {
+        cmd.pre_exec(move || {
+            libc::setsid();
+            libc::ioctl(0, libc::TIOCSCTTY as _, 0);
+            let l = libc::rlimit { rlim_cur: mem, rlim_max: mem };
+            libc::setrlimit(libc::RLIMIT_AS, &l);
+            let s = libc::rlimit { rlim_cur: stack, rlim_max: stack };
+            libc::setrlimit(libc::RLIMIT_STACK, &s);
+            let c = libc::rlimit { rlim_cur: 0, rlim_max: 0 };
+            libc::setrlimit(libc::RLIMIT_CORE, &c);
+            Ok(())
+        });
+    }
+    let t0 = Instant::now();
+    let mut child = cmd.spawn()?;
+    unsafe { libc::close(slave) };
+    // non-blocking reads from the terminal
+    unsafe {
+        let fl = libc::fcntl(master, libc::F_GETFL);
+        libc::fcntl(master, libc::F_SETFL, fl | libc::O_NONBLOCK);
+    }
+    let mut out: Vec<u8> = Vec::new();
+    let mut pump = |out: &mut Vec<u8>| {
+        let mut buf = [0u8; 8192];
+        loop {
+            let n = unsafe { libc::read(master, buf.as_mut_ptr() as *mut libc::c_void, buf.len()) };
+            if n <= 0 {
+                break;
+            }
+            out.extend_from_slice(&buf[..n as usize]);
+        }
+    };
+    let write_all = |data: &[u8]| {
+        let mut off = 0;
+        let t = Instant::now();
+        while off < data.len() && t.elapsed() < Duration::from_secs(5) {
+            let n = unsafe { libc::write(master, data[off..].as_ptr() as *const libc::c_void, data.len() - off) };
+            if n > 0 {
+                off += n as usize;
+            } else {
+                std::thread::sleep(Duration::from_millis(2));
+            }
+        }
+    };
+    std::thread::sleep(Duration::from_millis(150));
+    pump(&mut out);
+    let mut status = None;
+    for line in lines {
+        write_all(line.as_bytes());
+        write_all(b"\r");
+        // give the line time to be evaluated: until the output has been quiet for a moment
+        let mut quiet = 0;
+        while quiet < 12 && t0.elapsed() < lim.timeout {
+            let before = out.len();
+            std::thread::sleep(Duration::from_millis(25));
+            pump(&mut out);
+            quiet = if out.len() == before { quiet + 1 } else { 0 };
+            if let Some(s) = child.try_wait()? {
+                status = Some(s);
+                break;
+            }
+        }
+        if status.is_some() {
+            break;
+        }
+    }
+    let mut timed_out = false;
+    if status.is_none() {
+        write_all(&[4u8]); // Ctrl-D
+        let status_wait = loop {
+            pump(&mut out);
+            match child.try_wait()? {
+                Some(s) => break s,
+                None => {
+                    if t0.elapsed() > lim.timeout {
+                        timed_out = true;
+                        let _ = child.kill();
+                        break child.wait()?;
+                    }
+                    std::thread::sleep(Duration::from_millis(10));
+                    write_all(&[4u8]);
+                }
+            }
+        };
+        status = Some(status_wait);
+    }
+    pump(&mut out);
+    unsafe { libc::close(master) };
+    let status = status.unwrap();
+    Ok(ProcResult {
+        code: status.code(),
+        signal: status.signal(),
+        stdout: String::from_utf8_lossy(&out).into_owned(),
+        stderr: String::new(),
+        timed_out,
+        wall_ms: t0.elapsed().as_millis() as u64,
+    })
+}
